@@ -184,14 +184,14 @@ def anchors():
 EXTRA = {
     "opensquirrel/common.py": ["C01", "C02", "C06", "C15", "C16", "C08"],
     "opensquirrel/ir.py": ["C15", "C16", "C13", "C07", "C03", "C08", "C04", "C20", "C02"],
-    "opensquirrel/circuit.py": ["C05", "C13", "C06", "C03"],
+    "opensquirrel/circuit.py": ["C05", "C13", "C06", "C03", "C16"],
     "opensquirrel/circuit_builder.py": ["C13", "C20"],
-    "opensquirrel/register_manager.py": ["C09", "C13", "C04"],
+    "opensquirrel/register_manager.py": ["C09", "C13", "C04", "C16"],
     "opensquirrel/instruction_library.py": ["C13", "C20", "C09"],
     "opensquirrel/utils/matrix_expander.py": ["C08", "C06", "C16"],
     "opensquirrel/circuit_matrix_calculator.py": ["C08", "C06"],
     "opensquirrel/reindexer/qubit_reindexer.py": ["C06", "C16", "C19"],
-    "opensquirrel/mapper/mapping.py": ["C03"], "opensquirrel/mapper/general_mapper.py": ["C03"], "opensquirrel/mapper/simple_mappers.py": ["C03", "C05"],
+    "opensquirrel/mapper/mapping.py": ["C03", "C16"], "opensquirrel/mapper/general_mapper.py": ["C03"], "opensquirrel/mapper/simple_mappers.py": ["C03", "C05"],
     "opensquirrel/mapper/qubit_remapper.py": ["C03", "C05", "C12", "C20"], "opensquirrel/mapper/utils.py": ["C18"],
     "opensquirrel/decomposer/aba_decomposer.py": ["C01", "C10", "C05"], "opensquirrel/decomposer/mckay_decomposer.py": ["C01", "C10", "C05"],
     "opensquirrel/decomposer/cnot_decomposer.py": ["C01", "C10", "C05"], "opensquirrel/decomposer/general_decomposer.py": ["C06", "C01", "C10", "C20"],
